@@ -1859,6 +1859,8 @@ class CouplingModel(Model):
         )
         H_MPO = H_MPO_graph.build_MPO()
         H_MPO.max_range = ct.max_range()
+        if not edt.is_empty:
+            H_MPO.max_range = max(H_MPO.max_range, edt.max_range())  # infinite range
         H_MPO.explicit_plus_hc = self.explicit_plus_hc
         return H_MPO
 
